@@ -1101,7 +1101,11 @@ func (k *Kad) Outbound(peer p2p.Peer) {
 	k.logger.Debugf("kademlia: connected to peer: %q in bin: %d", peer, po)
 
 	if peer.Mode.IsBootNode() {
-		k.knownPeers.Remove(peer.Address)
+		// a boot node that dialled in earlier is a connected peer like any
+		// other and has to stay known as long as it is connected
+		if !k.connectedPeers.Exists(peer.Address) {
+			k.knownPeers.Remove(peer.Address)
+		}
 		return
 	}
 	k.knownPeers.Add(peer.Address)
